@@ -10,6 +10,10 @@ CLAIMED = {
          "Exploration by runtime monitoring: thousands of generated edit histories (6 alphabets x 4 line-ending styles, range/multi-change/full edits, save, close/reopen) are driven through the real server process; after every step the cached bytes read through hook H1 under the server's own request mutex are compared byte-for-byte with an independent LSP text-buffer model. Held means held on the histories run, not for all histories.",
          "Trusts hook H1 (verif tag) to return the cache the handlers use, the harness's R-text model of LSP positions, and jrpc2's notification ordering (fence).",
          "DESIGN.md 3/C02"),
+ "C03": ("online monitor: type-1 diagnostics of the real server vs an independent reference recogniser (R-parse) over generated programs, mutants and sentinels",
+         "Exploration by runtime monitoring: grammar-directed valid programs (all productions, numeral/string zoo, 5.4 operators, attribs, goto) rendered with random trivia and line endings, their single-token mutants and ~110 curated sentinel chunks are analysed by the real server; presence of a type-1 diagnostic is compared with the verdict of an independent recursive-descent recogniser written from the reference manual. Programs that only break a compile-time rule outside the grammar are don't-care.",
+         "Trusts R-lex/R-parse (written from the manual; generator output and sentinels cross-check it on every run) and the type prefix in diagnostic messages. No Lua interpreter exists in the sandbox to validate the reference recogniser.",
+         "DESIGN.md 3/C03"),
 }
 
 PENDING_REASON = "check not built yet in this revision of /verif (work in progress; see DESIGN.md section 3 for the planned monitor)"
